@@ -3,7 +3,7 @@
    binary64 (FloatNum): non-NaN doubles are totally pre-ordered (FloatOrder.float_total_preorder) and every
    comparison with a NaN is false (float_nan_unordered, from FloatAxioms.leb_spec / ltb_spec / eqb_spec). *)
 From Coq Require Import ZArith List Bool Arith Lia PrimFloat FloatAxioms SpecFloat FloatOps.
-From Knee Require Import Num NumFloat NpList OrdLaws FloatOrder Model.Detectors Proofs.ArgFacts.
+From Knee Require Import Num NumFloat NpList OrdLaws FloatOrder Model.Detectors Model.DetectorsError Proofs.ArgFacts.
 From Knee Require Export Proofs.DetectorsBase Proofs.DetectorsLm.
 Import ListNotations.
 
@@ -64,3 +64,67 @@ Definition lmethod_get_knee_range := @lm_get_knee_range.
 Definition lmethod_get_knee_interior := @lm_get_knee_interior.
 Definition lmethod_get_knee_spec := @lm_get_knee_spec.
 Definition dfdt_get_knee_gradient_range := @dfdt_gkg_range.
+
+(* ------------------------------------------------------------------ the L-method criterion derived in the model
+   (Model/DetectorsError.v): the generic theorems instantiated with lerr := lm_error xs ys polyres fit cost.
+   Nothing is assumed about the least-squares residual oracle polyres (Tier S) beyond availability where stated. *)
+Section Derived.
+  Context {N : Num}.
+  Variables xs ys : list (T N).
+  Variable polyres : nat -> nat -> oval (T N).
+
+  (* with end-point lines and the RSS cost the derived error is a value at every split point inside the prefix *)
+  Lemma lm_error_point_rss_val m i : i < m -> exists v, lm_error xs ys polyres FitPoint CostRss m i = OVal v.
+  Proof.
+    intros H. unfold lm_error. destruct (m <=? i) eqn:E; [apply Nat.leb_le in E; lia|]. cbn. eauto.
+  Qed.
+  (* ... and with the RMSE cost unless a square-root argument compares below zero (math.sqrt would raise) *)
+  Lemma lm_error_point_rmse_val m i : i < m ->
+    lm_error xs ys polyres FitPoint CostRmse m i = ORaise \/ exists v, lm_error xs ys polyres FitPoint CostRmse m i = OVal v.
+  Proof.
+    intros H. unfold lm_error. destruct (m <=? i) eqn:E; [apply Nat.leb_le in E; lia|]. cbn.
+    match goal with |- context [if ?c then _ else _] => destruct c end; eauto.
+  Qed.
+
+  Theorem lm_get_knee_derived_range fit cost k :
+    lm_get_knee_derived xs ys polyres fit cost = OVal k -> 3 <= length xs /\ 2 <= k <= Nat.max 2 (length xs - 3).
+  Proof. apply lm_get_knee_range. Qed.
+  Theorem lm_get_knee_derived_spec (O : TotalPreorderOn (@notnan N)) (NU : NanUnordered N) fit cost k :
+    lm_get_knee_derived xs ys polyres fit cost = OVal k ->
+    lm_first_min_b (lm_error xs ys polyres fit cost (length xs)) (length xs) k = true.
+  Proof. apply lm_get_knee_spec; auto. Qed.
+
+  Theorem lmethod_knee_derived_total fit it limit :
+    2 <= length xs -> within (lmethod_knee_res_derived xs ys polyres fit it limit) (lm_iter_bound (length xs) it).
+  Proof. apply lmethod_knee_total. Qed.
+  Theorem lmethod_knee_derived_interior fit it limit k :
+    4 <= length xs -> res_knee (lmethod_knee_res_derived xs ys polyres fit it limit) = Some k -> 1 <= k /\ k + 2 <= length xs.
+  Proof. apply lmethod_knee_interior. Qed.
+  Theorem lmethod_knee_holds_derived (O : TotalPreorderOn (@notnan N)) (NU : NanUnordered N) fit it limit :
+    5 <= length xs ->
+    (forall m, 3 <= m <= length xs ->
+       Forall (fun i => oval_is_val (lm_error xs ys polyres fit CostRmse m i) = true) (lm_cands m)) ->
+    lmethod_knee_holds (length xs) (lm_error xs ys polyres fit CostRmse) it limit
+                       (lmethod_knee_res_derived xs ys polyres fit it limit) = 0%Z.
+  Proof. apply lmethod_knee_holds_model; auto. Qed.
+End Derived.
+
+Theorem lmethod_knee_holds_derived_float (xs ys : list float) (polyres : nat -> nat -> oval float) fit it limit :
+  5 <= length xs ->
+  (forall m, 3 <= m <= length xs ->
+     Forall (fun i => oval_is_val (@lm_error FloatNum xs ys polyres fit CostRmse m i) = true) (lm_cands m)) ->
+  @lmethod_knee_holds FloatNum (length xs) (@lm_error FloatNum xs ys polyres fit CostRmse) it limit
+                      (@lmethod_knee_res_derived FloatNum xs ys polyres fit it limit) = 0%Z.
+Proof. apply (@lmethod_knee_holds_derived FloatNum xs ys polyres float_total_preorder float_nan_unordered). Qed.
+
+(* the bit-for-bit comparison of a composite library value with the derived one is reflexive on the model's own values *)
+Lemma f_same_refl x : f_same x x = true.
+Proof. unfold f_same, f_isnan. destruct (PrimFloat.eqb x x); reflexivity. Qed.
+Lemma lm_table_same_refl (derived : nat -> nat -> oval float) (keys : list (nat * nat)) :
+  Forall (fun k => derived (fst k) (snd k) <> OMissing) keys ->
+  lm_table_same_b f_same derived (map (fun k => (fst k, snd k, derived (fst k) (snd k))) keys) = true.
+Proof.
+  induction keys as [|[m i] keys IH]; intros F; [reflexivity|]. inversion F as [|? ? H F']; subst.
+  cbn [map lm_table_same_b forallb fst snd] in *. rewrite andb_true_iff. split; [|apply IH; auto].
+  destruct (derived m i); cbn; auto using f_same_refl; congruence.
+Qed.
